@@ -2398,7 +2398,7 @@ def search(ctx: Ctx, reason: str):
     ok = ctx.model_ok
     ctx.model_ok = False
     try:
-        protocol_cases(ctx, 1)        # one more quick-sized batch on other seeds-of-the-day; keeps a red run < 3 min
+        protocol_cases(ctx, 0.4)      # a reduced batch (the minimum counts of every class): keeps a red run < 2 min
     finally:
         ctx.model_ok = ok
 
